@@ -43,6 +43,31 @@ def copies_used(pos, cell, pbc, ext):
     return [int(f[:, k].max()) for k in range(3)], int(len(f))
 
 
+def snap(d):
+    return [np.array(x, copy=True) for x in (d.disp_tensor_mic, d.disp_factors, d.dist_matrix_mic, d.dist_matrix_radii_mic)]
+
+
+def same(a, b):
+    return all(x.shape == y.shape and np.array_equal(x, y) for x, y in zip(a, b))
+
+
+def library_history(at):
+    """other entry points of the library, called on the same structure in the same process (each on its own
+    copy); whatever they do or raise, a later table must not depend on it"""
+    import contextlib, io
+    from matid.classification import Classifier
+    from matid.clustering import SBC
+    with contextlib.redirect_stdout(io.StringIO()):
+        for f in (lambda: Classifier().classify(at.copy()),
+                  lambda: SBC().get_clusters(at.copy()),
+                  lambda: MG.get_dimensionality(at.copy())):
+            try:
+                with time_limit(20):
+                    f()
+            except Exception:
+                pass
+
+
 def run_case(c):
     pos = np.array(c["pos"], dtype=float) / G
     cell = np.array(c["cell"], dtype=float) / G
@@ -54,6 +79,21 @@ def run_case(c):
     out["n_ext"] = next_
     if c["api"] == "distances":
         at = Atoms(numbers=[1 + (i % 8) for i in range(len(pos))], positions=pos, cell=cell, pbc=pbc)
+        if c.get("history"):
+            # the statement is about a function of the input: the table of a structure must be the same before and
+            # after other library calls on that structure, and after the caller scribbled over arrays it was handed
+            w = at.copy()
+            w.wrap()
+            d0, dw0 = MG.get_distances(at), MG.get_distances(w)
+            r0, rw0 = snap(d0), snap(dw0)
+            library_history(at)
+            for dd in (d0, dw0):
+                for arr in (dd.disp_tensor_mic, dd.disp_factors, dd.dist_matrix_mic, dd.dist_matrix_radii_mic):
+                    try:
+                        arr[...] = 777.0
+                    except ValueError:
+                        pass
+            out["history_same"] = bool(same(snap(MG.get_distances(at)), r0) and same(snap(MG.get_distances(w)), rw0))
         d = MG.get_distances(at)
         disp, fac, dist = d.disp_tensor_mic, d.disp_factors, d.dist_matrix_mic
         # dist_matrix_radii_mic = dist - (r_i + r_j): checked here, bit-exact
@@ -76,6 +116,16 @@ def run_case(c):
         else:
             kw["cutoff"] = cutoff
         pos_before = pos.copy()
+        if c.get("history"):
+            # earlier calls on the same positions with other cutoffs / return flags, results scribbled over
+            r0 = [np.array(x, copy=True) for x in MG.get_displacement_tensor(pos, cell, pbc_arg, return_factors=True, return_distances=True, **kw)]
+            for k2 in ({"cutoff": 0.75}, {"cutoff": 3.0}, {}):
+                for flags in ((True, True), (False, True), (True, False)):
+                    got = MG.get_displacement_tensor(pos, cell, pbc_arg, return_factors=flags[0], return_distances=flags[1], **k2)
+                    for arr in (got if isinstance(got, (list, tuple)) else [got]):
+                        arr[...] = 777.0
+            r1 = MG.get_displacement_tensor(pos, cell, pbc_arg, return_factors=True, return_distances=True, **kw)
+            out["history_same"] = bool(all(np.array_equal(a, b) for a, b in zip(r0, r1)))
         disp, fac, dist = MG.get_displacement_tensor(pos, cell, pbc_arg, return_factors=True, return_distances=True, **kw)
         out["input_unchanged"] = bool(np.array_equal(pos, pos_before))
     out["dist"] = [[hexf(x) for x in row] for row in np.asarray(dist).tolist()]
